@@ -482,7 +482,7 @@ BY_NAME: dict[str, Callable[..., Any]] = {
     "mapper": g_mapper, "project": g_mapper, "mapper_indexed": g_mapper_ix,
     "key_mapper": g_key, "element_mapper": g_elem, "comparer": g_eqcmp,
     "accumulator": g_acc, "seed": g_const(0, "s", 10),
-    "count": g_const(1, 2, 3), "index": g_const(0, 1, 2, 4), "skip": g_skipcount,
+    "count": g_const(0, 1, 2, 3), "index": g_const(0, 1, 2, 4), "skip": g_skipcount,
     "duetime": g_time, "duration": g_time, "timespan": g_time, "window_duration": g_time, "period": g_time,
     "timeshift": g_timeshift, "start_time": g_abs_or_rel, "end_time": g_abs_or_rel,
     "scheduler": g_sched,
@@ -495,8 +495,8 @@ BY_NAME: dict[str, Callable[..., Any]] = {
     "default_value": g_const("dflt", -77, 0), "initial_value": g_const("init", -5), "value": g_contains_value,
     "has_default": g_const(True), "inclusive": g_const(True),
     "start": g_const(1, 2), "stop": g_const(3, 4, 5), "step": g_const(2, 3),
-    "buffer_size": g_const(1, 2), "window": g_const(15.0, 25.0),
-    "retry_count": g_const(2, 3), "repeat_count": g_const(2, 3), "max_concurrent": g_const(1, 2),
+    "buffer_size": g_const(0, 1, 2), "window": g_const(15.0, 25.0),
+    "retry_count": g_const(0, 1, 2, 3), "repeat_count": g_const(0, 1, 2, 3), "max_concurrent": g_const(1, 2),
     "handler": g_handler, "condition": g_condition, "action": g_cb(0),
     "on_next": g_cb(1), "on_error": g_cb(1), "on_completed": g_cb(0),
     "key": g_const("a", "b"), "attr": g_const("a", "b"),
